@@ -108,7 +108,7 @@ func (r *Run) check(cond bool, rule, key, pos, desc, detail string) bool {
 }
 
 func (r *Run) note(format string, a ...any) { r.Notes = append(r.Notes, fmt.Sprintf(format, a...)) }
-func (r *Run) saw(fn string)                  { r.analysed[fn] = true }
+func (r *Run) saw(fn string)                { r.analysed[fn] = true }
 
 func loadFindings(path string) ([]Finding, error) {
 	b, err := os.ReadFile(path)
@@ -215,21 +215,21 @@ func (r *Run) Finish(evidencePath, findingsPath string) int {
 		"seed":        r.Seed,
 		"level":       "other",
 		"coverage": map[string]any{
-			"explanation": r.Explain,
-			"obligations": len(r.Obs),
-			"discharged":  nOK,
+			"explanation":            r.Explain,
+			"obligations":            len(r.Obs),
+			"discharged":             nOK,
 			"known_findings_matched": nKnown,
-			"rules":              rules,
-			"all_obligations":    r.Obs,
-			"samples":            samples,
-			"packages_loaded":    len(r.W.Pkgs),
-			"ssa_functions":      len(r.W.AllFuncs),
-			"source_functions":   r.W.nFuncsIn,
-			"functions_analysed": fns,
-			"not_decided":        r.NotDec,
-			"notes":              r.Notes,
-			"exhaustive":         false,
-			"checker_cmd":        fmt.Sprintf("/verif/run.sh %s %s", r.Prop, r.Tier),
+			"rules":                  rules,
+			"all_obligations":        r.Obs,
+			"samples":                samples,
+			"packages_loaded":        len(r.W.Pkgs),
+			"ssa_functions":          len(r.W.AllFuncs),
+			"source_functions":       r.W.nFuncsIn,
+			"functions_analysed":     fns,
+			"not_decided":            r.NotDec,
+			"notes":                  r.Notes,
+			"exhaustive":             false,
+			"checker_cmd":            fmt.Sprintf("/verif/run.sh %s %s", r.Prop, r.Tier),
 		},
 		"assumptions": r.Assume,
 		"wall_s":      time.Since(r.Start).Seconds(),
